@@ -401,7 +401,7 @@ pub fn stream_capi(opt: &HashMap<String, String>) -> i32 {
                     let wide = rng.below(3) != 0;
                     let method = rng.below(7) as u8;
                     let n = match rng.below(8) { 0 => 0, 1 => 1, 2 => 2, _ => rng.range(3, if wide { if thorough { 40 } else { 22 } } else { 8 }) };
-                    let fam = ["uniform", "lattice", "duppoints", "euclid", "allequal", "negzero", "signed"][rng.below(7) as usize];
+                    let fam = ["uniform", "lattice", "duppoints", "euclid", "allequal", "negzero", "signed", "subnormal"][rng.below(8) as usize];
                     // single / complete never add: values next to the largest finite one are valid input
                     let fam = if method <= 1 && rng.below(6) == 0 { "maxmag" } else { fam };
                     let v = matrix_f64(&mut rng, n as usize, fam, wide);
